@@ -1,5 +1,5 @@
 """C12: (a) flat kernels with symbolic inputs: stringize, macroequal; (b) expansion: the real pp.c (define/undef/directive/expand/expandfunc/
-ctxnext/peekparen/keyword) runs under CBMC on 34 concrete macro sets and 18 violating ones (raw tokens from props/pplib.py replace scan.c, typed
+ctxnext/peekparen/keyword) runs under CBMC on ~45 concrete macro sets and 18 violating ones (raw tokens from props/pplib.py replace scan.c, typed
 rows replace realloc'ed arrays); the delivered token sequence must equal that of the platform preprocessor (gcc -E).  In (b) structure and
 spellings are concrete: it is bounded execution of the real code with arbitrary allocator contents, not a quantification over macro sets."""
 from core import Inst
@@ -8,7 +8,7 @@ META = {
     'functions': ['pp.c:stringize', 'pp.c:macroequal', 'pp.c:define/undef/directive/expand/expandfunc/ctxnext/ctxpush/peekparen/rawnext/nextinto/next/keyword/macroparam/macroget/macrodone'],
     'bounds': {'stringize': '<= 2 (quick) / 3 (thorough) tokens, symbolic kind among identifier/number/string/character constant, symbolic space flag and 2-character spelling',
                'macroequal': 'two macros, <= 2 parameters, <= 2 replacement tokens, symbolic kinds/names/flags/spellings/space flags',
-               'expand': '34 macro sets (<= 12 macros, <= 200 raw tokens: C11 6.10.3.5 examples 3 and 7 without ##, pre-expansion, rescanning, recursion suppression, arguments over several lines / with nested parentheses and commas / empty, function-like names without (, stringification, variadics, #undef/#define histories, #line, #pragma, null directive) + 18 violating sets; oracle gcc -E'},
+               'expand': 'NCASES macro sets (<= 12 macros, <= 200 raw tokens: C11 6.10.3.5 examples 3 and 7 without ##, pre-expansion, rescanning, recursion suppression, arguments over several lines / with nested parentheses and commas / empty, function-like names without (, stringification, variadics, #undef/#define histories, #line, #pragma, null directive) + NREJ violating sets; oracle gcc -E'},
     'stubs': ['scan() returns EOF (kernels) / feeds the raw token sequence (expand)', 'arrayadd/arrayaddbuf/arraylast/xreallocarray: typed rows', 'snprintf empty', 'strtoull decimal model', 'error()/fatal() end the path', 'xmalloc never NULL'],
     'outside': ['punctuator tokens in stringize (their spelling comes from the tokstr table; CBMC and the native run disagreed on that path, so it is not claimed)', 'macro sets other than the listed ones (no quantification over generated macro sets)', 'scan.c producing the raw tokens (C11/C13)', 'compile(P) == compile(expanded P) beyond token equality', '-E output formatting'],
 }
@@ -24,4 +24,5 @@ def instances(build, tier, seed):
                   native_units=['scan'], family='macroequal', timeout=300 if tier == 'quick' else 1800, bound={'params': 2, 'tokens': 2}))
     import pplib
     L += pplib.instances(tier)
+    META['bounds']['expand'] = META['bounds']['expand'].replace('NCASES', str(len(pplib.CASES))).replace('NREJ', str(len(pplib.REJECT)))
     return L
